@@ -172,6 +172,26 @@ def _get_used_variables(stmt: Statement) -> frozenset[str]:
     return stmt.used_variables()
 
 
+def _get_asserted_variables(stmt: Statement) -> set[str]:
+    """Return the variable names the assertions of *stmt* refer to.
+
+    The source of a reference assertion is a variable name or a dotted attribute
+    path rooted at one (e.g. ``var_0.field``); exception assertions have no source.
+
+    Args:
+        stmt: The statement whose assertions are inspected.
+
+    Returns:
+        The root names of all assertion sources of the statement.
+    """
+    names: set[str] = set()
+    for assertion in stmt.assertions:
+        source = getattr(assertion, "source", None)
+        if isinstance(source, str):
+            names.add(source.split(".", 1)[0])
+    return names
+
+
 def _uses_variable(stmt: Statement, var_name: str) -> bool:
     """Return True if *var_name* is used (read) anywhere in *stmt*'s CST.
 
@@ -588,7 +608,9 @@ class TestCase:  # noqa: PLR0904
 
         Uses a backward pass to track alive variables. For each assignment, if the
         bound variable is not alive at that point, the assignment is replaced with
-        a simple expression statement.
+        a simple expression statement.  The assertions of a statement are rendered
+        right after it, so the variables they refer to are alive at that point; a
+        rewritten statement keeps its assertions.
         """
         self._code_cache = None
         alive_vars: set[str] = set()
@@ -596,6 +618,8 @@ class TestCase:  # noqa: PLR0904
         for i in range(len(self._statements) - 1, -1, -1):
             stmt = self._statements[i]
             bv = stmt.bound_variable
+            # Assertions read their source variable after the statement executed.
+            alive_vars.update(_get_asserted_variables(stmt))
 
             if bv is not None:
                 if bv in alive_vars:
@@ -610,6 +634,9 @@ class TestCase:  # noqa: PLR0904
                             node=new_node,
                             bound_variable=None,
                             bound_type=None,
+                            assertions=list(stmt.assertions),
+                            accessible=stmt.accessible,
+                            ml_info=stmt.ml_info,
                         )
                     # Even if unused, the RHS might use other variables
                     alive_vars.update(_get_used_variables(stmt))
